@@ -51,6 +51,10 @@ CHECKS['C10'] = ('4.C10', 'Every single-unit rule instantiation (ASCII classes, 
                  'bytes with symbolic length (all truncations) to match iff an independently written specification (documented byte sets, Unicode Table 3-7, surrogate arithmetic, shift/or) matches and to '
                  'consume exactly the specified length; complete over the data, template constants are a representative boundary set.')
 
+CHECKS['C16'] = ('4.C16', 'The real raw_string (open, close test, until loop, content action) is proved equal to an independent Lua long-bracket scanner on fully symbolic bytes '
+                 '(all lengths up to the bound, all start offsets): match iff opening bracket of level k followed by a closing bracket of level k, consumption through the first such close, content span '
+                 'without one leading line ending, other levels ignored, failure without consumption; lazy and eager inputs, three eol policies, custom characters, content rules.')
+
 NOT_YET = {}
 
 
